@@ -11,7 +11,7 @@ cycles; the cycles are a topological order of that graph, so `d` satisfies the r
 namespace QipVerif.Sched
 open Relation
 
-variable (alap allowPerm : Bool) (ns : List Ins)
+variable (alap allowPerm fx : Bool) (ns : List Ins)
 variable (O2 : Nat → List Nat → List Nat)
 
 theorem finalOrder_eq : finalOrder alap allowPerm ns O2 = (cyclesGen alap allowPerm ns O2).flatten := by
@@ -21,23 +21,25 @@ theorem finalOrder_eq : finalOrder alap allowPerm ns O2 = (cyclesGen alap allowP
 
 /-- the start time the model returns for instruction `i` -/
 def startOf (i : Nat) : Int :=
-  (distStart ns.length (finalEdges alap allowPerm ns O2).has (durIdx ns) (finalOrder alap allowPerm ns O2)).get i - durIdx ns i
+  (distStart ns.length (finalEdges alap allowPerm fx ns O2).has (durIdx ns) (finalOrder alap allowPerm ns O2)).get i - durIdx ns i
 
 theorem startsGen_getD {i : Nat} (hi : i < ns.length) :
-    (startsGen alap allowPerm ns O2).getD i 0 = startOf alap allowPerm ns O2 i := by
+    (startsGen alap allowPerm fx ns O2).getD i 0 = startOf alap allowPerm fx ns O2 i := by
   simp [startsGen, startOf, List.getD_eq_getElem?_getD, hi]
 
-theorem startsGen_length : (startsGen alap allowPerm ns O2).length = ns.length := by simp [startsGen]
+theorem startsGen_length : (startsGen alap allowPerm fx ns O2).length = ns.length := by simp [startsGen]
 
-theorem depEdges_sub_final {x y : Nat} (h : (x, y) ∈ depEdges allowPerm ns) : (x, y) ∈ finalEdges alap allowPerm ns O2 := by
+theorem depEdges_sub_final {x y : Nat} (h : (x, y) ∈ depEdges allowPerm ns) : (x, y) ∈ finalEdges alap allowPerm fx ns O2 := by
   unfold finalEdges passEdges
   simp only
   cases alap with
-  | false => simpa using Or.inl h
+  | false =>
+    simp only [Bool.false_eq_true, if_false]
+    exact List.mem_append_left _ (List.mem_append_left _ h)
   | true =>
     simp only [if_true]
     rw [Edges.mem_rev]
-    exact List.mem_append_left _ (Edges.mem_rev.mpr h)
+    exact List.mem_append_left _ (List.mem_append_left _ (Edges.mem_rev.mpr h))
 
 /-- a topological order from strictly increasing cycle positions along the edges -/
 theorem topoOrder_of_pos {n : Nat} {E : Nat → Nat → Bool} {cs : List (List Nat)} (hnd : cs.flatten.Nodup)
@@ -59,6 +61,59 @@ theorem topoOrder_of_pos {n : Nat} {E : Nat → Nat → Bool} {cs : List (List N
       have := posOf_le_of_sublist hnd hsub
       omega
 
+/-! ## the additional edges of the repaired code -/
+
+theorem mem_crossEdges_cons {sh : Nat → Nat → Bool} {c : List Nat} {cs : List (List Nat)} {x y : Nat} :
+    (x, y) ∈ crossEdges sh (c :: cs) ↔ (x ∈ c ∧ y ∈ cs.flatten ∧ sh y x = true) ∨ (x, y) ∈ crossEdges sh cs := by
+  simp only [crossEdges, List.mem_append, List.mem_flatMap, List.mem_map, List.mem_filter, Prod.mk.injEq]
+  constructor
+  · rintro (⟨i1, h1, i2, ⟨h2, h3⟩, rfl, rfl⟩ | h)
+    · exact Or.inl ⟨h1, h2, h3⟩
+    · exact Or.inr h
+  · rintro (⟨h1, h2, h3⟩ | h)
+    · exact Or.inl ⟨x, h1, y, ⟨h2, h3⟩, rfl, rfl⟩
+    · exact Or.inr h
+
+/-- a cross edge goes from a strictly earlier cycle to a later one -/
+theorem crossEdges_pos {sh : Nat → Nat → Bool} {cs : List (List Nat)} (hnd : cs.flatten.Nodup) {x y : Nat}
+    (h : (x, y) ∈ crossEdges sh cs) :
+    posOf cs x < posOf cs y ∧ x ∈ cs.flatten ∧ y ∈ cs.flatten ∧ sh y x = true := by
+  induction cs with
+  | nil => simp [crossEdges] at h
+  | cons c cs ih =>
+    rw [List.flatten_cons] at hnd
+    have hnd' := List.nodup_append.mp hnd
+    rcases mem_crossEdges_cons.mp h with ⟨h1, h2, h3⟩ | h'
+    · have hyc : y ∉ c := fun hc => hnd'.2.2 y hc y h2 rfl
+      rw [posOf_cons_of_mem h1, posOf_cons_of_not_mem hyc]
+      exact ⟨Nat.succ_pos _, by simp [h1], by simp [h2], h3⟩
+    · obtain ⟨hp, hx, hy, hs⟩ := ih hnd'.2.1 h'
+      have hxc : x ∉ c := fun hc => hnd'.2.2 x hc x hx rfl
+      have hyc : y ∉ c := fun hc => hnd'.2.2 y hc y hy rfl
+      rw [posOf_cons_of_not_mem hxc, posOf_cons_of_not_mem hyc]
+      exact ⟨Nat.succ_lt_succ hp, by simp [hx], by simp [hy], hs⟩
+
+/-- every qubit-sharing pair sitting in different cycles is a cross edge -/
+theorem crossEdges_of_pos {sh : Nat → Nat → Bool} {cs : List (List Nat)} {x y : Nat}
+    (hx : x ∈ cs.flatten) (hy : y ∈ cs.flatten) (hp : posOf cs x < posOf cs y) (hs : sh y x = true) :
+    (x, y) ∈ crossEdges sh cs := by
+  induction cs with
+  | nil => simp at hx
+  | cons c cs ih =>
+    rw [mem_crossEdges_cons]
+    by_cases hxc : x ∈ c
+    · left
+      rw [posOf_cons_of_mem hxc] at hp
+      have hyc : y ∉ c := fun hc => by rw [posOf_cons_of_mem hc] at hp; omega
+      rw [List.flatten_cons, List.mem_append] at hy
+      exact ⟨hxc, hy.resolve_left hyc, hs⟩
+    · right
+      rw [posOf_cons_of_not_mem hxc] at hp
+      have hyc : y ∉ c := fun hc => by rw [posOf_cons_of_mem hc] at hp; omega
+      rw [posOf_cons_of_not_mem hyc] at hp
+      rw [List.flatten_cons, List.mem_append] at hx hy
+      exact ih (hx.resolve_left hxc) (hy.resolve_left hyc) (by omega)
+
 section main
 variable (hO : ∀ r l, (O2 r l).Perm l)
 include hO
@@ -67,7 +122,7 @@ theorem finalOrder_perm : (finalOrder alap allowPerm ns O2).Perm (List.range ns.
   rw [finalOrder_eq]; exact cyclesGen_perm alap allowPerm ns O2 hO
 
 /-- every edge of the final graph goes from a strictly earlier cycle to a later one -/
-theorem finalEdges_pos {x y : Nat} (h : (x, y) ∈ finalEdges alap allowPerm ns O2) :
+theorem finalEdges_pos {x y : Nat} (h : (x, y) ∈ finalEdges alap allowPerm fx ns O2) :
     posOf (cyclesGen alap allowPerm ns O2) x < posOf (cyclesGen alap allowPerm ns O2) y ∧
       x < ns.length ∧ y < ns.length := by
   have hkey := fun (a : Bool) (i j : Nat) (hi : i < ns.length) (hj : j < ns.length) h =>
@@ -77,83 +132,107 @@ theorem finalEdges_pos {x y : Nat} (h : (x, y) ∈ finalEdges alap allowPerm ns 
   cases alap with
   | false =>
     simp only [Bool.false_eq_true, if_false] at h
-    rcases List.mem_append.mp h with h1 | h1
-    · have h1' : (x, y) ∈ depEdges allowPerm ns := by simpa [passEdges] using h1
-      have := depEdges_forward allowPerm ns h1'
-      exact ⟨cyclesGen_edge_pos false allowPerm ns O2 hO h1', by omega, this.2⟩
-    · have := topo_conflict_pos (sh := shareIdx ns) O2 hO true (passKey false ns.length) (hkey false) h1
-      exact ⟨by simpa [cyclesGen, pass2] using this.1, this.2.1, this.2.2.1⟩
+    rcases List.mem_append.mp h with h0 | hx
+    · rcases List.mem_append.mp h0 with h1 | h1
+      · have h1' : (x, y) ∈ depEdges allowPerm ns := by simpa [passEdges] using h1
+        have := depEdges_forward allowPerm ns h1'
+        exact ⟨cyclesGen_edge_pos false allowPerm ns O2 hO h1', by omega, this.2⟩
+      · have := topo_conflict_pos (sh := shareIdx ns) O2 hO true (passKey false ns.length) (hkey false) h1
+        exact ⟨by simpa [cyclesGen, pass2] using this.1, this.2.1, this.2.2.1⟩
+    · cases fx with
+      | false => simp at hx
+      | true =>
+        simp only [if_true] at hx
+        have hnd := topo_nodup (sh := shareIdx ns) O2 hO true (passKey false ns.length) (hkey false)
+        obtain ⟨hp, hmx, hmy, _⟩ := crossEdges_pos (sh := shareIdx ns) hnd hx
+        exact ⟨by simpa [cyclesGen, pass2] using hp,
+          topo_lt (sh := shareIdx ns) O2 hO true (passKey false ns.length) (hkey false) hmx,
+          topo_lt (sh := shareIdx ns) O2 hO true (passKey false ns.length) (hkey false) hmy⟩
   | true =>
     simp only [if_true] at h
     rw [Edges.mem_rev] at h
-    rcases List.mem_append.mp h with h1 | h1
-    · have h1' : (x, y) ∈ depEdges allowPerm ns := by
-        simp only [passEdges, if_true] at h1
-        exact Edges.mem_rev.mp h1
-      have := depEdges_forward allowPerm ns h1'
-      exact ⟨cyclesGen_edge_pos true allowPerm ns O2 hO h1', by omega, this.2⟩
-    · have hc := topo_conflict_pos (sh := shareIdx ns) O2 hO true (passKey true ns.length) (hkey true) h1
-      have hnd := topo_nodup (sh := shareIdx ns) O2 hO true (passKey true ns.length) (hkey true)
-      have hmx := topo_mem (sh := shareIdx ns) O2 hO true (passKey true ns.length) (hkey true) hc.2.2.1
-      have hmy := topo_mem (sh := shareIdx ns) O2 hO true (passKey true ns.length) (hkey true) hc.2.1
-      refine ⟨?_, hc.2.2.1, hc.2.1⟩
+    have hnd := topo_nodup (sh := shareIdx ns) O2 hO true (passKey true ns.length) (hkey true)
+    -- an edge `y → x` of the pass graph whose ends sit in pass cycles `pos y < pos x`
+    have fin : posOf (pass2 true allowPerm ns O2).1 y < posOf (pass2 true allowPerm ns O2).1 x → x < ns.length →
+        y < ns.length → posOf (cyclesGen true allowPerm ns O2) x < posOf (cyclesGen true allowPerm ns O2) y ∧
+          x < ns.length ∧ y < ns.length := by
+      intro hp hx hy
+      have hmx := topo_mem (sh := shareIdx ns) O2 hO true (passKey true ns.length) (hkey true) hx
+      have hmy := topo_mem (sh := shareIdx ns) O2 hO true (passKey true ns.length) (hkey true) hy
+      refine ⟨?_, hx, hy⟩
       simp only [cyclesGen, if_true]
-      unfold pass2
+      unfold pass2 at hp ⊢
       rw [posOf_reverse hnd hmx, posOf_reverse hnd hmy]
       have := posOf_lt_length hmx
-      have := hc.1
       omega
+    rcases List.mem_append.mp h with h0 | hx
+    · rcases List.mem_append.mp h0 with h1 | h1
+      · have h1' : (x, y) ∈ depEdges allowPerm ns := by
+          simp only [passEdges, if_true] at h1
+          exact Edges.mem_rev.mp h1
+        have := depEdges_forward allowPerm ns h1'
+        exact ⟨cyclesGen_edge_pos true allowPerm ns O2 hO h1', by omega, this.2⟩
+      · have hc := topo_conflict_pos (sh := shareIdx ns) O2 hO true (passKey true ns.length) (hkey true) h1
+        exact fin (by simpa [pass2] using hc.1) hc.2.2.1 hc.2.1
+    · cases fx with
+      | false => simp at hx
+      | true =>
+        simp only [if_true] at hx
+        obtain ⟨hp, hmy, hmx, _⟩ := crossEdges_pos (sh := shareIdx ns) hnd hx
+        exact fin (by simpa [pass2] using hp)
+          (topo_lt (sh := shareIdx ns) O2 hO true (passKey true ns.length) (hkey true) hmx)
+          (topo_lt (sh := shareIdx ns) O2 hO true (passKey true ns.length) (hkey true) hmy)
 
 theorem finalOrder_topo :
-    TopoOrder ns.length (finalEdges alap allowPerm ns O2).has (finalOrder alap allowPerm ns O2) := by
+    TopoOrder ns.length (finalEdges alap allowPerm fx ns O2).has (finalOrder alap allowPerm ns O2) := by
   rw [finalOrder_eq]
   apply topoOrder_of_pos (cyclesGen_nodup alap allowPerm ns O2 hO)
   · intro p hp
     exact (cyclesGen_perm alap allowPerm ns O2 hO).mem_iff.mpr (List.mem_range.mpr hp)
   · intro p y _ hpy
-    exact (finalEdges_pos alap allowPerm ns O2 hO (Edges.has_iff.mp hpy)).1
+    exact (finalEdges_pos alap allowPerm fx ns O2 hO (Edges.has_iff.mp hpy)).1
 
 /-- the recurrence of the returned table -/
 theorem final_rec {y : Nat} (hy : y < ns.length) :
-    (distStart ns.length (finalEdges alap allowPerm ns O2).has (durIdx ns) (finalOrder alap allowPerm ns O2)).get y =
-      maxOver (distStart ns.length (finalEdges alap allowPerm ns O2).has (durIdx ns) (finalOrder alap allowPerm ns O2))
-        (predsOf ns.length (finalEdges alap allowPerm ns O2).has y) + durIdx ns y := by
+    (distStart ns.length (finalEdges alap allowPerm fx ns O2).has (durIdx ns) (finalOrder alap allowPerm ns O2)).get y =
+      maxOver (distStart ns.length (finalEdges alap allowPerm fx ns O2).has (durIdx ns) (finalOrder alap allowPerm ns O2))
+        (predsOf ns.length (finalEdges alap allowPerm fx ns O2).has y) + durIdx ns y := by
   have hp := finalOrder_perm alap allowPerm ns O2 hO
-  apply distStart_rec ((List.Perm.nodup_iff hp).mpr List.nodup_range) (finalOrder_topo alap allowPerm ns O2 hO)
+  apply distStart_rec ((List.Perm.nodup_iff hp).mpr List.nodup_range) (finalOrder_topo alap allowPerm fx ns O2 hO)
   exact hp.mem_iff.mpr (List.mem_range.mpr hy)
 
 /-- along an edge of the final graph the target starts after the source has finished -/
-theorem edge_ineq {x y : Nat} (h : (x, y) ∈ finalEdges alap allowPerm ns O2) :
-    startOf alap allowPerm ns O2 x + durIdx ns x ≤ startOf alap allowPerm ns O2 y := by
-  obtain ⟨_, hx, hy⟩ := finalEdges_pos alap allowPerm ns O2 hO h
+theorem edge_ineq {x y : Nat} (h : (x, y) ∈ finalEdges alap allowPerm fx ns O2) :
+    startOf alap allowPerm fx ns O2 x + durIdx ns x ≤ startOf alap allowPerm fx ns O2 y := by
+  obtain ⟨_, hx, hy⟩ := finalEdges_pos alap allowPerm fx ns O2 hO h
   unfold startOf
-  rw [final_rec alap allowPerm ns O2 hO hy]
-  have : x ∈ predsOf ns.length (finalEdges alap allowPerm ns O2).has y := mem_predsOf.mpr ⟨hx, Edges.has_iff.mpr h⟩
-  have := maxOver_ge (distStart ns.length (finalEdges alap allowPerm ns O2).has (durIdx ns)
+  rw [final_rec alap allowPerm fx ns O2 hO hy]
+  have : x ∈ predsOf ns.length (finalEdges alap allowPerm fx ns O2).has y := mem_predsOf.mpr ⟨hx, Edges.has_iff.mpr h⟩
+  have := maxOver_ge (distStart ns.length (finalEdges alap allowPerm fx ns O2).has (durIdx ns)
     (finalOrder alap allowPerm ns O2)) this
   linarith
 
 theorem path_ineq (hdur : ∀ i, 0 ≤ durIdx ns i) {x y : Nat}
-    (h : TransGen (fun a b => (a, b) ∈ finalEdges alap allowPerm ns O2) x y) :
-    startOf alap allowPerm ns O2 x + durIdx ns x ≤ startOf alap allowPerm ns O2 y := by
+    (h : TransGen (fun a b => (a, b) ∈ finalEdges alap allowPerm fx ns O2) x y) :
+    startOf alap allowPerm fx ns O2 x + durIdx ns x ≤ startOf alap allowPerm fx ns O2 y := by
   induction h with
-  | single h1 => exact edge_ineq alap allowPerm ns O2 hO h1
+  | single h1 => exact edge_ineq alap allowPerm fx ns O2 hO h1
   | @tail b c _ h2 ih =>
-    have := edge_ineq alap allowPerm ns O2 hO h2
+    have := edge_ineq alap allowPerm fx ns O2 hO h2
     have := hdur b
     linarith
 
 theorem startOf_nonneg (hdur : ∀ i, 0 ≤ durIdx ns i) {i : Nat} (hi : i < ns.length) :
-    0 ≤ startOf alap allowPerm ns O2 i := by
+    0 ≤ startOf alap allowPerm fx ns O2 i := by
   unfold startOf
-  rw [final_rec alap allowPerm ns O2 hO hi]
-  have := maxOver_nonneg (distStart ns.length (finalEdges alap allowPerm ns O2).has (durIdx ns)
-    (finalOrder alap allowPerm ns O2)) (predsOf ns.length (finalEdges alap allowPerm ns O2).has i)
+  rw [final_rec alap allowPerm fx ns O2 hO hi]
+  have := maxOver_nonneg (distStart ns.length (finalEdges alap allowPerm fx ns O2).has (durIdx ns)
+    (finalOrder alap allowPerm ns O2)) (predsOf ns.length (finalEdges alap allowPerm fx ns O2).has i)
     (fun p _ => distStart_nonneg hdur _ p)
   linarith
 
 /-- some instruction starts at time 0 -/
-theorem exists_start_zero (hne : ns ≠ []) : ∃ i, i < ns.length ∧ startOf alap allowPerm ns O2 i = 0 := by
+theorem exists_start_zero (hne : ns ≠ []) : ∃ i, i < ns.length ∧ startOf alap allowPerm fx ns O2 i = 0 := by
   have hp := finalOrder_perm alap allowPerm ns O2 hO
   have hlen : 0 < ns.length := List.length_pos_of_ne_nil hne
   -- the first node of the order has no predecessor
@@ -165,20 +244,20 @@ theorem exists_start_zero (hne : ns ≠ []) : ∃ i, i < ns.length ∧ startOf a
   | cons y b =>
     have hy : y < ns.length := List.mem_range.mp (hp.mem_iff.mp (by simp [ho]))
     refine ⟨y, hy, ?_⟩
-    have htopo := finalOrder_topo alap allowPerm ns O2 hO
-    have hnp : predsOf ns.length (finalEdges alap allowPerm ns O2).has y = [] := by
+    have htopo := finalOrder_topo alap allowPerm fx ns O2 hO
+    have hnp : predsOf ns.length (finalEdges alap allowPerm fx ns O2).has y = [] := by
       apply List.eq_nil_iff_forall_not_mem.mpr
       intro p hp'
       have := htopo [] y b (by simpa using ho) p (mem_predsOf.mp hp').1 (mem_predsOf.mp hp').2
       simp at this
     unfold startOf
-    rw [final_rec alap allowPerm ns O2 hO hy, hnp]
+    rw [final_rec alap allowPerm fx ns O2 hO hy, hnp]
     simp [maxOver]
 
 theorem finish_le_sum (hdur : ∀ i, 0 ≤ durIdx ns i) (i : Nat) :
-    startOf alap allowPerm ns O2 i + durIdx ns i ≤ (ns.map Ins.dur).sum := by
+    startOf alap allowPerm fx ns O2 i + durIdx ns i ≤ (ns.map Ins.dur).sum := by
   have hp := finalOrder_perm alap allowPerm ns O2 hO
-  have h1 := distStart_le_sum (n := ns.length) (E := (finalEdges alap allowPerm ns O2).has) hdur
+  have h1 := distStart_le_sum (n := ns.length) (E := (finalEdges alap allowPerm fx ns O2).has) hdur
     (finalOrder alap allowPerm ns O2) i
   have h2 : ((finalOrder alap allowPerm ns O2).map (durIdx ns)).sum = ((List.range ns.length).map (durIdx ns)).sum :=
     (hp.map _).sum_eq
@@ -192,11 +271,55 @@ theorem finish_le_sum (hdur : ∀ i, 0 ≤ durIdx ns i) (i : Nat) :
 /-- a dependency path forces the later instruction to wait -/
 theorem dep_ineq (hdur : ∀ i, 0 ≤ durIdx ns i) {i j : Nat} (hij : i < j) (hj : j < ns.length)
     (hs : shareIdx ns i j = true) (hc : commIdx allowPerm ns j i = false) :
-    startOf alap allowPerm ns O2 i + durIdx ns i ≤ startOf alap allowPerm ns O2 j := by
+    startOf alap allowPerm fx ns O2 i + durIdx ns i ≤ startOf alap allowPerm fx ns O2 j := by
   rcases depEdges_order allowPerm ns hij hj hs with h | h
   · rw [hc] at h; exact absurd h (by simp)
-  · exact path_ineq alap allowPerm ns O2 hO hdur
-      (tg_mono (fun a b hab => depEdges_sub_final alap allowPerm ns O2 hab) h)
+  · exact path_ineq alap allowPerm fx ns O2 hO hdur
+      (tg_mono (fun a b hab => depEdges_sub_final alap allowPerm fx ns O2 hab) h)
+
+/-- with the repaired recording, every qubit-sharing pair sitting in different returned cycles is an edge
+of the final graph, directed from the earlier to the later cycle -/
+theorem final_edge_of_share {i j : Nat} (hi : i < ns.length) (hj : j < ns.length) (hs : shareIdx ns i j = true)
+    (hp : posOf (cyclesGen alap allowPerm ns O2) i < posOf (cyclesGen alap allowPerm ns O2) j) :
+    (i, j) ∈ finalEdges alap allowPerm true ns O2 := by
+  have hkey := fun (a : Bool) (i j : Nat) (hi : i < ns.length) (hj : j < ns.length) h =>
+    passEdges_key a allowPerm ns (i := i) (j := j) hi hj h
+  have hs' : shareIdx ns j i = true := by rw [shareIdx, share_symm]; exact hs
+  unfold finalEdges
+  simp only [if_true]
+  cases alap with
+  | false =>
+    simp only [Bool.false_eq_true, if_false]
+    apply List.mem_append_right
+    have hmi := topo_mem (sh := shareIdx ns) O2 hO true (passKey false ns.length) (hkey false) hi
+    have hmj := topo_mem (sh := shareIdx ns) O2 hO true (passKey false ns.length) (hkey false) hj
+    exact crossEdges_of_pos (sh := shareIdx ns) (by simpa [pass2] using hmi) (by simpa [pass2] using hmj)
+      (by simpa [cyclesGen] using hp) hs'
+  | true =>
+    simp only [if_true]
+    rw [Edges.mem_rev]
+    apply List.mem_append_right
+    have hnd := topo_nodup (sh := shareIdx ns) O2 hO true (passKey true ns.length) (hkey true)
+    have hmi := topo_mem (sh := shareIdx ns) O2 hO true (passKey true ns.length) (hkey true) hi
+    have hmj := topo_mem (sh := shareIdx ns) O2 hO true (passKey true ns.length) (hkey true) hj
+    simp only [cyclesGen, if_true] at hp
+    unfold pass2 at hp
+    rw [posOf_reverse hnd hmi, posOf_reverse hnd hmj] at hp
+    have := posOf_lt_length hmj
+    exact crossEdges_of_pos (sh := shareIdx ns) (by simpa [pass2] using hmj) (by simpa [pass2] using hmi)
+      (by simp only [pass2]; omega) hs
+
+/-- two instructions with the same position in the returned cycles list sit in one cycle -/
+theorem same_cycle_of_pos {i j : Nat} (hi : i < ns.length) (hj : j < ns.length)
+    (hp : posOf (cyclesGen alap allowPerm ns O2) i = posOf (cyclesGen alap allowPerm ns O2) j) :
+    ∃ c ∈ cyclesGen alap allowPerm ns O2, i ∈ c ∧ j ∈ c := by
+  have hperm := cyclesGen_perm alap allowPerm ns O2 hO
+  obtain ⟨c, hc, hic⟩ := mem_getElem_posOf (hperm.mem_iff.mpr (List.mem_range.mpr hi))
+  obtain ⟨c', hc', hjc⟩ := mem_getElem_posOf (hperm.mem_iff.mpr (List.mem_range.mpr hj))
+  rw [hp, hc'] at hc
+  have hcc : c' = c := Option.some.inj hc
+  subst hcc
+  exact ⟨c', List.mem_iff_getElem?.mpr ⟨_, hc'⟩, hic, hjc⟩
 
 end main
 
